@@ -219,6 +219,29 @@ func c04Check(ctx *vfCtx, c c04Case) {
 		// the tampering may make the event unparseable (e.g. type no longer a string): that is a
 		// clean rejection, outside this property
 		ctx.Class("rejected")
+		// ... unless the tampering is of the plainest kind - another hash value, an ordinary extra
+		// content key, an unknown or stripped-on-receipt top-level key, written plainly - and the
+		// genuine event itself is accepted: then the statement promises the redacted form, not a refusal
+		plain := len(c.Tampers) > 0 && c.Respell == 0 && c.EscapeKey == "" && c.DupKey == ""
+		for _, tm := range c.Tampers {
+			switch {
+			case tm.Kind == "hash_set":
+			case tm.Kind == "content_set" && (tm.Key == "zz_evil" || tm.Key == "body"):
+			case tm.Kind == "top_set" && (tm.Key == "foo" || tm.Key == "age_ts" || tm.Key == "outlier" || tm.Key == "destinations"):
+			default:
+				plain = false
+			}
+		}
+		if plain {
+			var gerr error
+			if vfCatch(ctx, "C04/genuine", func() { _, gerr = impl.NewEventFromUntrustedJSON([]byte(jplain(orig))) }) {
+				return
+			}
+			if gerr == nil {
+				ctx.Fail("C04/refused-instead-of-redacted"+evKnownClass(c.Version, received), "the genuine event is accepted; with only plain redactable material altered (%d tamperings) the parser refuses it instead of returning its redacted form: %v; wire=%q", len(c.Tampers), err, wire)
+				return
+			}
+		}
 		ctx.Unjudged("tampered event rejected by the parser")
 		return
 	}
